@@ -287,7 +287,7 @@ package transport
 //@   pure
 //@ func (SSE).Do [C03,C10,C05,C12,C04]
 //@   stable sseConnection.keepAliveTicker
-//@   loop 1: invariant c != nil && (t.KeepAlivePingInterval > 0 ==> c.keepAliveTicker != nil)
+//@   loop 1: invariant c != nil && (t.KeepAlivePingInterval > 0 ==> c.keepAliveTicker != nil) && unsent == 0
 //@   ghost held = false
 //@   at `c.mu.Lock()` ghost held = true
 //@   at `c.mu.Unlock()` ghost held = false
@@ -297,6 +297,20 @@ package transport
 //@   callsite Fprint: requires held || calls(spawn) == 0 || calls(stopKeepAlive) >= 1
 //@   callsite writeJson: requires held || calls(spawn) == 0 || calls(stopKeepAlive) >= 1
 //@   callsite SendErrorf: requires held || calls(spawn) == 0 || calls(stopKeepAlive) >= 1
+// C12 "each payload delivered exactly once, in order, as one 'next' event": what is written as an event is the
+// response just obtained (from the handler, or the executor's error response), to this request's writer, and each
+// response obtained is written before the next one is asked for
+//@   ghost last = nil
+//@   ghost unsent = 0
+//@   at `nextResponse(...` requires unsent == 0
+//@   at `nextResponse(...` ghost last = callres0
+//@   at `nextResponse(...` ghost unsent = ite(callres0 != nil, 1, 0)
+//@   at `exec.DispatchError(...` ghost last = callres0
+//@   at `exec.DispatchError(...` ghost unsent = 1
+//@   callsite writeJsonWithSSE: requires arg0 == w && arg1 == last && unsent == 1
+//@   at `writeJsonWithSSE(w, response)` ghost unsent = 0
+//@   at `writeJsonWithSSE(w, resp)` ghost unsent = 0
+//@   at! `fmt.Fprint(w, "event: complete\n\n")` requires unsent == 0
 // exactly one terminal event, after the one dispatch; no ping can follow it: the connection is closed before it is
 // written, or in the same lock hold
 //@   ghost completeAt = 0 - 1
